@@ -23,6 +23,7 @@ import (
 
 	"seata.apache.org/seata-go/pkg/rm/tcc"
 	"seata.apache.org/seata-go/pkg/tm"
+	"seata.apache.org/seata-go/pkg/util/vshim/vtime"
 
 	"verifharness/faketc"
 	"verifharness/gen"
@@ -94,6 +95,7 @@ func worker(c Composition) workerResult {
 	// panic) - a sequential defect in C17's territory, noted in DESIGN.md 9.4; with fresh connections the concurrent part can run
 	e.XA.SetMaxIdleConns(0)
 	e.TC.AutoRollback = true
+	faketc.SettleAfterCommit = false // several transactions run at once: global quiescence is not a per-call notion here
 	proxy, err := tcc.NewTCCServiceProxy(&tccAct{name: "c20Action"})
 	if err != nil {
 		res.Problems = append(res.Problems, "setup: "+err.Error())
@@ -151,7 +153,7 @@ func worker(c Composition) workerResult {
 	baseConns := openConns()
 	hungBefore := faketc.Hung
 	waitFlush := func() {
-		// the asynchronous phase-two commits are flushed by a (real-time) ticker: wait until the undo logs are gone (bounded)
+		// the asynchronous phase-two commits are flushed by the clean-up ticker, which the check ticks: wait until the undo logs are gone (bounded)
 		for i := 0; i < 100; i++ {
 			n := 0
 			rows, err := e.Bare.Query("SELECT branch_id FROM undo_log")
@@ -166,7 +168,8 @@ func worker(c Composition) workerResult {
 			if n == 0 {
 				break
 			}
-			time.Sleep(100 * time.Millisecond)
+			vtime.Tick(0) // the client's tickers are virtual (sys.InitClient): this is the clean-up interval elapsing
+			time.Sleep(20 * time.Millisecond)
 		}
 	}
 	for round := 0; round < c.Rounds; round++ {
